@@ -242,6 +242,7 @@ func runC15(c *core.Ctx, o Options) {
 	c.Check(nU6 >= 3, "U6", "", "state-changing handlers and goroutines found", 0, fmt.Sprint(nU6), "fewer state-changing roots than confirmed by reading")
 	checkEventPool(c, "U5")
 	// U3 premise: the close timeout armed by Stop is the configured one — the settings the Logon handler installs keep CloseTimeout
+	s.checkRegisteredOnce("U1", true, "Logout")
 	s.checkSettingsPreserved("U3")
 	// … and nothing else rewrites it: every store to LogonSettings.CloseTimeout stores the CloseTimeout of other settings
 	nCT := 0
@@ -262,7 +263,7 @@ func runC15(c *core.Ctx, o Options) {
 		})
 	}
 	c.Check(nCT >= 1, "U3", "", "stores to CloseTimeout found", 0, fmt.Sprint(nCT), "no store to LogonSettings.CloseTimeout found (the Logon handler's replacement was confirmed)")
-	c.RuleMin = map[string]int{"M1": 3, "U1": 1, "U2": 1, "U3": 3, "U4": 4, "U5": 3, "U6": 5}
+	c.RuleMin = map[string]int{"M1": 3, "U1": 3, "U2": 1, "U3": 3, "U4": 4, "U5": 3, "U6": 5}
 	c.MinObl = 12
 }
 
